@@ -190,6 +190,29 @@ def check_source(ctx, src, tag, cli_dir=None):
     if tag in ('program', 'head'):
         if not object_histories(ctx, src, case):
             return
+    if cli_dir is not None and b'\r\n' in src and b'\r' not in src.replace(b'\r\n', b''):
+        # a .lua file with CRLF line ends (an editor on another platform wrote it): build copies its bytes like any others
+        from pico8 import tool
+        p3 = os.path.join(cli_dir, 'crlf src.lua')
+        with open(p3, 'wb') as fh:
+            fh.write(src)
+        out3 = os.path.join(cli_dir, 'out3.p8')
+        if os.path.exists(out3):
+            os.remove(out3)
+        try:
+            rcode3 = tool.main([ambient.vflag(), 'build', out3, '--lua', p3])
+            got3 = rc.read_p8(open(out3, 'rb').read())['code']
+        except Exception as e:
+            ctx.violation('build --lua file.lua (CRLF line ends) raised %r' % (e,), case)
+            return
+        ctx.monitor('cli_copies_compared')
+        ctx.feature('build_from_crlf_lua_file')
+        if rcode3:
+            ctx.violation('build --lua file.lua (CRLF line ends) returned %r' % rcode3, case)
+            return
+        want = src if src.endswith(b'\n') else src + b'\n'
+        compare_echo(ctx, want, got3, case, 'build --lua file.lua (CRLF) output')
+        return
     if cli_dir is not None and b'\r' not in src:
         # full object path and CLI copy paths (these parse; only complete programs are sent here)
         from pico8 import tool
@@ -341,6 +364,8 @@ def gates(m, tier):
             f.get('source_heads', 0), f.get('object_filled_in_two_steps', 0), mon.get('object_echoes_compared', 0)))
     if f.get('big_programs', 0) < 3 or f.get('long_line_sources', 0) < 3:
         missed.append('cart-sized programs %d, long one-line sources %d' % (f.get('big_programs', 0), f.get('long_line_sources', 0)))
+    if f.get('build_from_crlf_lua_file', 0) < 5:
+        missed.append('build from a .lua file with CRLF line ends: %d' % f.get('build_from_crlf_lua_file', 0))
     if f.get('build_from_lua_file', 0) < 20 or f.get('build_from_lua_file_with_return', 0) < 5:
         missed.append('build from a .lua file: %d (with a return statement: %d)' % (f.get('build_from_lua_file', 0), f.get('build_from_lua_file_with_return', 0)))
     if mon.get('cli_copies_compared', 0) < 20:
